@@ -10,9 +10,9 @@ PREC = {'**': 7, '*': 6, '/': 6, '%': 6, '+': 5, '-': 5, '<=': 4, '<': 4, '>=': 
 
 NUMBER_TEXTS = ['0', '1', '7', '12', '3.5', '1.', '10e+2', '2.5e-3', '007', '0.125', '1e+308', '5e-324', '123456789', '9007199254740993',
                 '0.1', '100.', '1.50', '6e+0']
-IDENTS = ['gr\u00f6\u00dfe', 'na\u00efve', 'x\u0394', 'a\u00e9', 'n\u0663', 'x\u00b2', 'a', 'b', 'x', 'xy', 'foo', '_u', 'a1', 'true', 'false', 'null', 'Zz_9', 'e', 'if2', 'in', 'endif']
-CALL_NAMES = ['gr\u00f6\u00dfe', 'na\u00efve_len', 'x\u0394', 'a\u00e9', 'n\u0663', 'foo', 'if', 'max', 'f2', '__x', 'arrayNew', 'xy']
-STRING_VALUES = ["it\\'s", 'say \\"hi\\"', 'a\\\nb', 'line1\nline2', '\x01', 'a\x01b', '\x02\x7f', '\x00', '\x1b[0m', '', 'a', 'a b', "it's", 'x\\y', '"q"', '#', 'a,b)', '\\', "'", '\\n', 'é\U0001f600', '(', ' ', "a'b'c", 'tab\t', '1 + 2', ':', '\\\\']
+IDENTS = ['gr\u00f6\u00dfe', 'na\u00efve', 'x\u0394', 'a\u00e9', 'n\u0663', 'x\u00b2', 'a', 'b', 'x', 'xy', 'foo', '_u', 'a1', 'true', 'false', 'null', 'Zz_9', 'e', 'if2', 'in', 'endif', 'not', 'and', 'or', 'notes', 'android', 'order', 'xor', 'mod', 'is']
+CALL_NAMES = ['notify', 'andThen', 'orElse', 'not', 'gr\u00f6\u00dfe', 'na\u00efve_len', 'x\u0394', 'a\u00e9', 'n\u0663', 'foo', 'if', 'max', 'f2', '__x', 'arrayNew', 'xy']
+STRING_VALUES = ['fill: #fff', ':#', 'a: # b', "it\\'s", 'say \\"hi\\"', 'a\\\nb', 'line1\nline2', '\x01', 'a\x01b', '\x02\x7f', '\x00', '\x1b[0m', '', 'a', 'a b', "it's", 'x\\y', '"q"', '#', 'a,b)', '\\', "'", '\\n', 'é\U0001f600', '(', ' ', "a'b'c", 'tab\t', '1 + 2', ':', '\\\\']
 BRACKET_NAMES = ['a b', 'x.y', 'a]b', '1st', 'a', 'Ünï', 'a[b', 'a\\b', 'x y z', '+', "q'r", 'a](b', 'f](n', "a]'b", 'x]"y', '(', ')', 'g(x', '"q"', 'a]]b', ']',
                  'a])b', "it's]('"]
 # number literals beyond the double range (the literal denotes what float() makes of its text); only where a check asks for them
